@@ -6,9 +6,19 @@
 // usage: c08 <cases.json> <out.jsonl> <quick|thorough|replay>
 //
 // cases.json: [{"id","category","rule","label":"avoid"|"prefer","files":[{"name","text"}],"config_yaml":"",
-//               "embed":"all"|"none"|"noblank"|..., "batch":bool, "embeddings":[["P3","C"],...] (replay only)}]
-// out.jsonl : one object per (case, embedding): {"id","emb":[ops],"mode":"single"|"batch","texts":{name:text},
-//               "violations":[{title,category,file,row,col,erow,ecol,text}],"notices":[...],"error":""}
+//
+//	"embed":"all"|"none"|"nocrlf,noblank,notop,noappend" (exclusions), "batch":bool,
+//	"embeddings":[["P3","C"],...] (replay: exactly these embeddings)}]
+//
+// out.jsonl : one object per (case, embedding):
+//
+//	  {"id","emb":[ops],"mode":"single"|"batch","texts":{name:text},"violations":[{title,category,file,row,
+//	   col,erow,ecol,text,has_text}],"notices":[...],"error":"","batch_size":n}
+//	or {"id","emb","mode":"dup","dup_of":[ops]} when the texts equal those of an earlier embedding
+//	(the operations commute: Props/C08.v c08_reordering_commutable_ops) and no lint of its own is run.
+//
+// Embedding ops: "P<k>" k blank lines after the package line, "T<k>" k blank lines at the top, "C" CRLF line ends,
+// "A" append a blank line and an unrelated rule (numbered per occurrence).
 package main
 
 import (
@@ -109,7 +119,9 @@ func toCRLF(t string) string {
 	return strings.ReplaceAll(strings.ReplaceAll(t, "\r\n", "\n"), "\n", "\r\n")
 }
 
-func unrelatedRule(n int) string { return "zz_verif_unrelated_" + strconv.Itoa(n) + " := " + strconv.Itoa(n) }
+func unrelatedRule(n int) string {
+	return "zz_verif_unrelated_" + strconv.Itoa(n) + " := " + strconv.Itoa(n)
+}
 
 // blank line, an unrelated rule, final line end
 func appendRule(t string, n int) string {
@@ -337,8 +349,14 @@ func main() {
 		}
 		p := &plan{c: c}
 		seen := map[string]int{}
+		canBatch := c.Batch && len(c.Files) == 1 && tier != "replay"
 		for _, ops := range list {
 			if !allowed(c.Embed, ops) {
+				continue
+			}
+			// scenarios that need a lint call of their own per embedding (several files, aggregate rules,
+			// path-dependent rules) go up to depth 2 only: a full Lint costs ~0.5 s of CPU
+			if !canBatch && tier == "thorough" && len(ops) > 2 {
 				continue
 			}
 			files := map[string]string{}
@@ -362,7 +380,7 @@ func main() {
 			if p.rep[e] != e {
 				continue
 			}
-			batchable := c.Batch && len(c.Files) == 1 && tier != "replay"
+			batchable := canBatch
 			solo := !batchable || len(p.embs[e]) == 0 || (soloDepth == 1 && isQuickSingle(p.embs[e]))
 			if solo {
 				jobs = append(jobs, job{items: []item{{c, e}}})
